@@ -473,17 +473,27 @@ def opt_val(x):
 
 
 def check_models(ck, cases, scan_cases, prefix="c03"):
-    per = max(12, (len(cases) + NPROC - 1) // NPROC)
+    for fn in glob.glob(os.path.join(VERIF, "coq", "run", prefix + "_traces_*")):
+        try:
+            os.remove(fn)          # leftovers of a larger earlier run
+        except OSError:
+            pass
+    per = max(20, (len(cases) + 11) // 12)
     bodies = [replay_body(cases[i:i + per]) for i in range(0, len(cases), per)]
-    sper = 500
+    # scans: evaluate each distinct (kind, filter, order, results) once
+    sper = 1500
     sbodies = []
     schunks = []
     for kind in ("getone", "getmany"):
-        ks = [s for s in scan_cases if s["kind"] == kind]
-        for i in range(0, len(ks), sper):
-            chunk = ks[i:i + sper]
-            schunks.append(chunk)
-            sbodies.append("Eval vm_compute in [" + ";\n ".join(coq_scan_case(s) for s in chunk) + "].\n")
+        uniq = {}
+        for s in scan_cases:
+            if s["kind"] == kind:
+                uniq.setdefault(coq_scan_case(s), []).append(s)
+        keys = list(uniq)
+        for i in range(0, len(keys), sper):
+            chunk = keys[i:i + sper]
+            schunks.append([uniq[k] for k in chunk])
+            sbodies.append("Eval vm_compute in [" + ";\n ".join(chunk) + "].\n")
     res = ck.coq_eval_sharded(prefix + "_traces", ["C03_Fetcher"], bodies + sbodies)
     rejected = mismatched = coq_fail = 0
     accepted = 0
@@ -559,7 +569,7 @@ def check_models(ck, cases, scan_cases, prefix="c03"):
         if len(vals) != len(chunk):
             coq_fail += 1
             continue
-        for s, v in zip(chunk, vals):
+        for s, v in [(s, v) for group, v in zip(chunk, vals) for s in group]:
             want = scan_expect(s)
             got = norm_scan(v, s["kind"])
             if got != want:
@@ -689,8 +699,10 @@ def run(ck: Check):
                       "OFFSET_OUT_OF_RANGE, delays), leader migrations, leaderless periods, retention; then a quiet "
                       "period.  One evaluation = one (scenario, partition) trace; non-trivial = at least one record "
                       "delivered; distinct by (projected trace, log)")
+    import time as _t
+    t0 = _t.time()
     ok_p, _ = ck.coq_props("C03")
-    ck.log(f"proofs ok={ok_p}")
+    ck.log(f"proofs ok={ok_p} ({_t.time() - t0:.0f}s)")
 
     rng = random.Random(ck.seed * 7919 + 3)
     n = ck.n(72, 1500)
@@ -702,13 +714,17 @@ def run(ck: Check):
     scs += directed_scenarios(100000)
     for i in range(n):
         scs.append(gen_scenario(rng, i))
+    t0 = _t.time()
     results = run_scenarios(scs, timeout=ck.n(600, 2400))
+    ck.log(f"simulations took {_t.time() - t0:.0f}s")
     hist = new_hist()
     cases, scan_cases, nbad = collect(ck, scs, results, hist)
     ck.extra["input_distribution"] = hist
     ck.log(f"simulated {len(scs)} scenarios, {len(cases)} partition traces, {len(scan_cases)} scans, "
            f"monitor violations: {nbad}; {hist}")
+    t0 = _t.time()
     accepted, rejected, mismatched, coq_fail, scan_bad = check_models(ck, cases, scan_cases)
+    ck.log(f"replay inside Coq took {_t.time() - t0:.0f}s")
     ck.obligation("correspondence:all-traces-accepted-by-model-and-spec", rejected == 0 and coq_fail == 0,
                   f"{rejected} rejected, {coq_fail} case files failed to evaluate")
     ck.obligation("correspondence:model-and-spec-outputs-equal-observed", mismatched == 0, f"{mismatched} differ")
